@@ -2,14 +2,17 @@
 //!
 //! Sub-checks: (1) exhaustive coordinate table, (2) WDT essential grid + random maps,
 //! (3) WDT conversions over all version pairs, (4) WDL essential grid + random maps,
-//! (5) WDL conversions over all version pairs. Every written file is also judged by an
+//! (5) WDL conversions over all version pairs, (6) WDL maps with a history (parsed / converted, then
+//! edited through the public fields, then written: `hist.rs`). Every written file is also judged by an
 //! independent chunk walker (`walk.rs`) that knows the on-disk layout but none of the code
 //! under test.
 mod coords;
+mod hist;
 mod walk;
 mod wdl;
 mod wdt;
 
+use proptest::strategy::Strategy;
 use rayon::prelude::*;
 use serde_json::{Value, json};
 use std::collections::BTreeSet;
@@ -99,6 +102,24 @@ fn required_tags() -> Vec<String> {
             r.push(format!("wdl-convert:{v}->{to}"));
         }
     }
+    r.extend(hist::required_tags());
+    r
+}
+
+fn wdl_history_case(check: &Check, m: &wdl::WdlModel, hi: &hist::Hist) -> CaseResult {
+    let (info, r) = hist::judge_history(m, hi);
+    check.count(&info.class, info.nontrivial);
+    if info.refused {
+        check.bump("wdl_history_convert_refused_holes_to_vanilla", 1);
+    }
+    for t in info.tags {
+        tag(t);
+    }
+    if info.nontrivial {
+        check.sample(&format!("wdl-history{}{}", hi.origin, hi.convert.is_some() as u8), || {
+            json!({"kind":"wdl-history","class":info.class,"model":serde_json::to_value(m).unwrap(),"hist":serde_json::to_value(hi).unwrap()})
+        });
+    }
     r
 }
 
@@ -176,6 +197,11 @@ fn run_case(check: &Check, c: &Value) -> CaseResult {
             wdl_case(check, &m)?;
             wdl_convert_case(check, &m, to)
         }
+        "wdl-history" => wdl_history_case(
+            check,
+            &serde_json::from_value(c["model"].clone()).map_err(bad)?,
+            &serde_json::from_value(c["hist"].clone()).map_err(bad)?,
+        ),
         k => Err(Fail::new("bad-replay", format!("unknown replay kind {k:?}"))),
     }
 }
@@ -206,7 +232,13 @@ fn main() {
          rate) built through the public API for each of the 10 versions (and the version rule itself, 10 versions x 2 map kinds, against the documented table), plus a deterministic grid version x {terrain, WMO-only} x 12 \
          grid shapes x MAID; each also converted (grid: to all 10 versions; random: to one). WDL: tile sets (same fill patterns) with \
          545 hashed heights per tile, hole masks, WMO names/MWID/MODF (WotLK..WoD), four ML lists (Legion+), 10 versions, plus a grid \
-         version x 9 shapes x {bare, all optional content}; conversions likewise. non-trivial = the grid is asymmetric (some tile differs \
+         version x 9 shapes x {bare, all optional content}; conversions likewise. WDL histories: a map of any version that was \
+         built / parsed with the parser of its version / parsed with the auto-detecting parser, optionally converted with convert_wdl_file, then \
+         edited through the public fields (record lists MODF/MLDD/MLDX/MLMD/MLMX: every field of every record in place, one field of one \
+         record, shorter, longer, reversed; name table same length / longer / shorter; tiles: new heights, removed, added, holes toggled, \
+         moved to the transposed index), then written, walked, parsed and written again; grid = 10 versions x 2 origins x 20 edits + 100 \
+         version pairs x {built, parsed} x {no edit, in-place edit}; non-trivial there = the value has a past (parsed or converted) and the \
+         edit changed its content or the conversion changed its version. non-trivial = the grid is asymmetric (some tile differs \
          from its transpose) or an optional chunk is present; for conversions additionally source != target and not refused. distinct = \
          version x map kind x grid class x asymmetry x per-optional-chunk size class (x target version for conversions).",
     );
@@ -214,6 +246,7 @@ fn main() {
     check.assume("MAID layout (section-major, 64x64 per section, [y][x]) is taken from the crate's own doc comment, not from an external description; ML* record layouts are only checked for size");
     check.assume("content equality ignores the re-detected version, WdlFile::chunks and (WDT, 0x200 set) the legacy words that alias the file ids; a model never holds content its version cannot carry (WDL) — the writers drop such content by design");
     check.assume("a Cataclysm+ terrain map that is given MWMO names may be written with or without the chunk (documented version rule); dropping MWMO anywhere else is a failure");
+    check.assume("the content of a WdlFile is its public content fields (tiles, holes, names, MWID words, the five record lists) for its `version`; `chunks` and `map_tile_offsets` are by-products of parsing/conversion that a caller editing those fields does not maintain (examples/edit_heightmap.rs, README) - so the written bytes must follow the fields. The record lists of a converted map are taken as convert_wdl_file left them (the statement fixes only the tile data of a conversion)");
     check.assume("interior points lie >= 1/8 tile (66 yards) from any tile boundary, so f32 rounding (<= 0.002 yards) cannot move them across it");
 
     if let Some(p) = check.replay.clone() {
@@ -274,6 +307,15 @@ fn main() {
     run_list(&check, "wdl-grid", list);
     lap("wdl-grid");
 
+    // 3b. WDL maps with a history: every version x origin x edit kind, every version pair
+    let list: Vec<Value> = hist::essential_grid()
+        .into_iter()
+        .map(|(m, hi)| json!({"kind":"wdl-history","model":serde_json::to_value(&m).unwrap(),"hist":serde_json::to_value(&hi).unwrap()}))
+        .collect();
+    check.set_extra("wdl_history_grid_cases", json!(list.len()));
+    run_list(&check, "wdl-history-grid", list);
+    lap("wdl-history-grid");
+
     // 4. random WDT maps (+ one conversion each)
     let n_wdt = check.tier.pick(4_000u32, 100_000);
     pt::run(
@@ -306,6 +348,18 @@ fn main() {
     );
 
     lap("wdl-random");
+    // 6. random WDL maps with a random history
+    let n_hist = check.tier.pick(1_500u32, 30_000);
+    pt::run(
+        &check,
+        "wdl-history-random",
+        n_hist,
+        pt::Opts { max_shrink_iters: 400, ..pt::Opts::default() },
+        || (wdl::strategy().prop_map(hist::lighten), hist::strategy()),
+        |(m, hi)| json!({"kind":"wdl-history","model":serde_json::to_value(m).unwrap(),"hist":serde_json::to_value(hi).unwrap()}),
+        |(m, hi)| wdl_history_case(&check, m, hi),
+    );
+    lap("wdl-history-random");
     // essential classes must have been reached by construction
     let tags = TAGS.lock().unwrap().clone();
     let missing: Vec<String> = required_tags().into_iter().filter(|t| !tags.contains(t)).collect();
